@@ -32,7 +32,7 @@ func init() {
 			"G6 every sequence of <=3 rebinding steps (alias, rebind to another function / an int, bind a function to a free name of its own body, compound and right assignment) over a recursive function and a function with two free names, all surviving function values called afterwards; " +
 			"G7 list-chain property calls (3 elements x {@,=@,&@} x function/method property x 0..14 positional arguments x with/without a keyword): every element receives the written arguments; " +
 			"G8 one literal evaluated several times (factory called 2-3 times, list-chain body, recursion): keyword defaults and captures of its own evaluation; G9 a first call that binds extra names (second argument, undeclared/declared keyword) followed by a call without them; " +
-			"oracle = independent reference evaluator; non-trivial = program with a closure call after a reassignment, an arity/keyword mismatch or a receiver; distinct = distinct source; round 7: G2 call argument lists of <=3 (thorough 4) items are also written in 4 multi-line layouts; G10: a module file whose functions read free names is imported at top level, inside functions, nested functions, methods and chain blocks whose parameters/locals shadow those names, run through the real binary (48 programs).",
+			"oracle = independent reference evaluator; non-trivial = program with a closure call after a reassignment, an arity/keyword mismatch or a receiver; distinct = distinct source; round 7: G2 call argument lists of <=3 (thorough 4) items are also written in 4 multi-line layouts; G10: a module file whose functions read free names is imported at top level, inside functions, nested functions, methods and chain blocks whose parameters/locals shadow those names, run through the real binary (48 programs).; round 8: G11: literal / variable / method-literal / thoughtful calls and list chains whose function has 2-3 parameters spread an array receiver of length 0..4 however it was made; G12: calls with 1..14 positional arguments name each of them (plain, declared parameters, star expansion, method call).",
 		Assumptions: []string{
 			"don't-care: with fewer arguments than parameters \\N/\\0 show the nil padding: arg variables are compared only for positions actually received and \\0 only without padding",
 			"don't-care: in a function called with no arguments `\\`, `\\1` and receiver-less chains resolve lexically: probed only in functions that received >=1 argument",
